@@ -1917,6 +1917,8 @@ def bijection_zoo(seed=0):
         # loc and scale broadcast against each other: the log-determinant counts every element the scale acts on
         ("Affine(vector loc, scalar scale)", B.Affine(jnp.arange(3.0) * 0.4, 2.0), None), ("Affine(loc (1,4), scale (3,1))", B.Affine(jnp.ones((1, 4)) * 0.3, jnp.array([[1.5], [0.5], [2.0]])), None),
         ("Scale(scalar)", B.Scale(jnp.array(1.7)), None),
+        # a Scan whose layers have POINT-DEPENDENT log-determinants (the inverse log-det must be evaluated at the reconstructed point)
+        ("Scan(Chain[Affine, Tanh])", B.Scan(eqx.filter_vmap(lambda l_, s_: B.Chain([B.Affine(l_, s_), B.Tanh((2,))]))(jnp.array([[0.1, 0.2], [0.3, -0.4], [-0.2, 0.1]]) * sd, jnp.array([[1.0, 0.7], [0.5, 1.5], [0.9, 1.1]]) * sd)), None),
         # a whole sub-bijection frozen (wrapped in NonTrainable after construction, as the library's own test does)
         ("Chain(frozen sub-bijection)", eqx.tree_at(lambda c_: c_.bijections[0], B.Chain([aff(3), B.Tanh((3,))]), replace_fn=_NT), None),
     ]
@@ -2064,6 +2066,35 @@ def rt_c14(tier="quick", first_only=False, count=None, only=None):
                     fails.append(dict(what=f"{name}.{label}: jit result differs from eager", case=dict(obj=name, method=label)))
             except Exception as ex:  # noqa: BLE001
                 fails.append(dict(what=f"{name}.{label} cannot be traced under jit: {type(ex).__name__}: {str(ex)[:150]}", case=dict(obj=name, method=label)))
+    # the bisection inverter: bounds given as Python floats (defaults), ints or jax arrays; eager == jit == vmap(loop), second call with
+    # another input, flatten / unflatten
+    if not only or "Bisection" in only or "bisection" in only:
+        import flowjax.bijections as B
+        from flowjax.bisection_search import AutoregressiveBisectionInverter as _Inv
+        tri = B.TriangularAffine(jnp.array([0.2, -0.1, 0.4]), jnp.array([[1.5, 0.0, 0.0], [0.4, 0.8, 0.0], [-0.3, 0.6, 1.2]]))
+        ys = jnp.asarray(np.random.default_rng(12).normal(size=(3, 3)))
+        for blabel, kw_ in (("default bounds", {}), ("float bounds", dict(lower=-3.0, upper=4.0)), ("int bounds", dict(lower=-3, upper=4)), ("jax array bounds", dict(lower=jnp.array(-3.0), upper=jnp.array(4.0)))):
+            n += 1
+            case = dict(obj="AutoregressiveBisectionInverter", bounds=blabel)
+            try:
+                inv_ = _Inv(tol=1e-9, **kw_)
+                e0 = np.asarray(inv_(tri, ys[0]))
+                want = np.asarray(tri.inverse(ys[0]))
+                if not np.allclose(e0, want, atol=1e-6):
+                    fails.append(dict(what=f"AutoregressiveBisectionInverter ({blabel}): eager result {e0.tolist()} is not the preimage {want.tolist()}", case=case))
+                j0 = np.asarray(eqx.filter_jit(lambda iv, b_, y_: iv(b_, y_))(inv_, tri, ys[0]))
+                j1 = np.asarray(eqx.filter_jit(lambda iv, b_, y_: iv(b_, y_))(inv_, tri, ys[1]))
+                e1 = np.asarray(inv_(tri, ys[1]))
+                vm = np.asarray(jax.vmap(lambda y_: inv_(tri, y_))(ys))
+                lp = np.stack([np.asarray(inv_(tri, y_)) for y_ in ys])
+                fl, td = jax.tree_util.tree_flatten(inv_)
+                r0 = np.asarray(jax.tree_util.tree_unflatten(td, fl)(tri, ys[0]))
+                if not (np.allclose(j0, e0, atol=1e-12) and np.allclose(j1, e1, atol=1e-12) and np.allclose(vm, lp, atol=1e-12) and np.allclose(r0, e0, atol=1e-12)):
+                    fails.append(dict(what=f"AutoregressiveBisectionInverter ({blabel}): eager / jit / vmap / flatten-unflatten results differ", case=case))
+            except Exception as ex:  # noqa: BLE001
+                fails.append(dict(what=f"AutoregressiveBisectionInverter ({blabel}) cannot be called / traced: {type(ex).__name__}: {str(ex).splitlines()[0][:140]}", case=case))
+            if first_only and fails:
+                return fails
     if count is not None:
         count.append(n)
     return fails
